@@ -53,8 +53,10 @@ func cliScenarios() []cliScenario {
 		{Name: "ob-normal", Files: map[string]string{"main.php": "<?php\necho \"m1;\";\nob_start();\necho \"m2;\";\n"}, Input: "s:e1,ob,e2:normal", Out: "m1;m2;", Code: 0},
 		{Name: "ob-exit", Files: map[string]string{"main.php": "<?php\necho \"m1;\";\nob_start();\necho \"m2;\";\nob_start();\necho \"m3;\";\nexit(3);\n"}, Input: "s:e1,ob,e2,ob,e3:exit3", Fail: true, Out: "m1;m2;m3;", Code: 3},
 		{Name: "ob-nested-taken-back-uncaught", Files: map[string]string{"main.php": "<?php\necho \"m1;\";\nob_start();\necho \"m2;\";\nob_start();\necho \"m3;\";\n$x = ob_get_clean();\necho \"m4;\";\nfunction f() { throw new Exception(\"boom\"); }\nf();\n"}, Input: "s:e1,ob,e2,ob,e3,oc,e4:uncaught", Fail: true, Diag: true, Out: "m1;m2;m4;", Code: -1},
-		// known: the parser accepts a source whose last block is never closed and runs it
-		{Name: "unclosed-block", Files: map[string]string{"main.php": "<?php\necho \"m1;\";\nif (true) {\n  echo \"m2;\";\n"}, Input: "s:e1,e2:normal", SpecIn: "parse", Fail: true, Diag: true, Out: "", Code: -1, Known: "cli:syntax-error-accepted", KnownAs: "exit-zero+no-diagnostic+output-differs"},
+		// fixed (aa1fc00): a source whose last block is never closed, an unterminated array literal and a bare try are parse errors
+		{Name: "unclosed-block", Files: map[string]string{"main.php": "<?php\necho \"m1;\";\nif (true) {\n  echo \"m2;\";\n"}, Input: "parse", Fail: true, Diag: true, Out: "", Code: -1},
+		{Name: "unclosed-array", Files: map[string]string{"main.php": "<?php\necho \"m1;\";\n$a = [1, 2;\necho \"m2;\";\n"}, Input: "parse", Fail: true, Diag: true, Out: "", Code: -1},
+		{Name: "bare-try", Files: map[string]string{"main.php": "<?php\necho \"m1;\";\ntry { echo \"m2;\"; }\necho \"m3;\";\n"}, Input: "parse", Fail: true, Diag: true, Out: "", Code: -1},
 		{Name: "ob-taken-back", Files: map[string]string{"main.php": "<?php\necho \"m1;\";\nob_start();\necho \"m2;\";\n$x = ob_get_clean();\necho \"m3;\";\nthrow new Exception(\"boom\");\n"}, Input: "s:e1,ob,e2,oc,e3:uncaught", Fail: true, Diag: true, Out: "m1;m3;", Code: -1},
 	}
 }
